@@ -131,7 +131,22 @@ EXTRA6 = {
  "C18": " Every Unicode code point U+0000..U+10FFFF at four positions of valid tags and tripled on its own (the language is ASCII only).",
  "C20": " The rolling-file LOGGER kind (owns its appenders) with and without a separate .wf file, INFO and ERROR events, both layouts.",
 }
-for e in (EXTRA, EXTRA5, EXTRA6):
+# round 7
+EXTRA7 = {
+ "C01": " A user-registered level above the built-in MAX (1200) takes part as name, as explicit upper bound of references and as event level.",
+ "C03": " One goroutine publishes events it has built itself (GetEvent, its own kept field slice, Logger.Append on a synchronous logger) next to another using log.Info: the library neither keeps nor writes the slice it was lent.",
+ "C04": " A second life of the same logger object (Start, Stop, Start, three items, Stop): conservation and order over both lives.",
+ "C05": " Restarted logger objects with Stop racing the drain.",
+ "C08": " Complementary free-running -race pass (sampling): 8 goroutines through ONE text layout, a different hook time per call - every header carries its own call's time.",
+ "C09": " Every string of <= 3 bytes (a whole rune of any width) as key and as value of the JSON encoder and of the text encoder, top level and nested: identical to the escaper's text.",
+ "C10": " Complementary free-running -race pass (sampling): the context-fields hook hands the SAME slice with spare capacity to every call; every line carries the time, context string and own fields of its call.",
+ "C11": " Record with skip 1..12, 50 and 1000 from three call depths, after other lookups in the same mode, against runtime.Caller for that frame (empty beyond the stack), both modes. Complementary free-running -race pass: 8 goroutines released onto one cold call site.",
+ "C13": " Writes through Append with events stamped by another clock (2 h behind, 90 min ahead); payloads of 64 KiB, 1 byte and several lines handed to the file in one write call.",
+ "C14": " Through the rolling-file LOGGER (owns its appenders): every population of <= 2 entries x max ages 1/24 h with separate off (app.log.wf.<ts> is somebody else's) and on (both patterns are own, an INFO and an ERROR event rotate both appenders).",
+ "C15": " Indexed lists appenderRef[0..n-1] for n = 1..13 (two-digit indexes): all n resolved, a dangling reference or an ill-typed level at every position rejected.",
+ "C18": " Helper parts of 12..17 and 28..32 bytes so that the built names cross the 36-character limit with and without an action.",
+}
+for e in (EXTRA, EXTRA5, EXTRA6, EXTRA7):
     for k, v in e.items():
         CHECKS[k]["text"] += v
 CHECKS["C15"]["note"] = CHECKS["C15"]["note"].replace("Trusted: the deviation table (expected defaults) in harness/enum/c15.go.", "Trusted: the deviation table in harness/enum/c15.go (expected defaults of integer/boolean/word attributes are read from the live plugin's struct tag, so a tree that declares other defaults is not an alarm).")
